@@ -745,6 +745,19 @@ func (ex *Exec) jump(st *State, to *ssa.BasicBlock) {
 		fr.LoopHit[to]++
 		return
 	}
+	if !back && ex.Specs != nil {
+		if ct := ex.Specs.Contracts[fr.Fn.String()]; ct != nil && ct.Peel[lp.Ordinal] {
+			// peeled first iteration: executed like straight-line code; the cut happens when the back edge arrives
+			if fr.Peeled == nil {
+				fr.Peeled = map[*ssa.BasicBlock]bool{}
+			}
+			fr.Peeled[to] = true
+			return
+		}
+	}
+	if back && fr.Peeled[to] {
+		fr.Peeled[to] = false
+	}
 	// cut the loop here
 	ex.checkInvariants(st, fr, lp, "entry")
 	st.CutEvents = len(st.Events)
